@@ -205,7 +205,7 @@ class ADWINConfig(BaseWindowConfig):
         :type value: int
         :raises ValueError: Value error exception
         """
-        if value < 0:
+        if value < 1:
             raise ValueError("clock value must be greater than 0.")
         self._clock = value
 
